@@ -11,6 +11,29 @@ keeps the proofs, a semantic change breaks them.
 -/
 namespace Dora.A64
 
+/-! Equation lemmas of the small range predicates are realised HERE, in the common ancestor of the `Props/C08/Cls*`
+modules: Lean generates `f.eq_1` lazily in whichever module first unfolds `f`; when two sibling modules both do, importing
+them together fails ("environment already contains 'Dora.A64.fits_i14.eq_1'"). Which sibling needs one depends on the proof
+search, so it showed up only after a rebuild. Referring to the lemmas here makes them part of this module. -/
+section realise_eq_lemmas
+example := @fits_u16.eq_1
+example := @fits_u2.eq_1
+example := @fits_u3.eq_1
+example := @fits_bit.eq_1
+example := @fits_i21.eq_1
+example := @fits_i26.eq_1
+example := @fits_i19.eq_1
+example := @fits_u7.eq_1
+example := @fits_i14.eq_1
+example := @fits_u6.eq_1
+example := @fits_u5.eq_1
+example := @fits_u12.eq_1
+example := @fits_u13.eq_1
+example := @fits_u4.eq_1
+example := @fits_i7.eq_1
+example := @fits_i9.eq_1
+end realise_eq_lemmas
+
 /-- Arm ARM, "ADD (extended register)" and friends: the 3-bit `option` field. `LSL` is the preferred spelling of
 UXTX in the 64-bit form (sf = 1) and of UXTW in the 32-bit form (sf = 0). Hand-written specification, used by the
 generated theorem of class `addsub_extreg`. -/
